@@ -52,7 +52,7 @@ def kvsOf? (j : Json) : Option (List (String × J)) := do
   | .obj kvs => some kvs
   | _ => none
 
-def respJson (r : Response) : Json :=
+def respJson (r : Response J) : Json :=
   Json.mkObj [
     ("allowed", .bool r.allowed),
     ("status", match r.status with
@@ -60,7 +60,21 @@ def respJson (r : Response) : Json :=
       | some s => Json.mkObj [("message", .str s.message), ("code", .num (JsonNumber.fromInt s.code))]),
     ("warnings", match r.warnings with
       | none => .null
-      | some ws => .arr (ws.map Json.str).toArray)]
+      | some ws => .arr (ws.map Json.str).toArray),
+    ("patch", match r.patch with
+      | none => .null
+      | some ops => .arr (ops.map ofJ).toArray),
+    ("patchType", match r.patchType with
+      | none => .null
+      | some t => .str t)]
+
+/-- one registered handler with the remaining-filters bit and what its invocation did -/
+def entryOf? (j : Json) : Option ((Handler × Bool) × Act) := do
+  let h ← handlerOf? (← jField? j "handler")
+  let m ← jBool? (← jField? j "m")
+  let ws ← jStrList? (← jField? j "warnings")
+  let e ← outcomeOf? (← jField? j "error")
+  some ((h, m), ⟨ws, e⟩)
 
 def handle : DrvHandler := fun op args =>
   match op, args with
@@ -75,10 +89,30 @@ def handle : DrvHandler := fun op args =>
       let b ← toJ b
       let p ← toJ p
       some (ok (ofJ (J.mergePatch b p)))
-  | "C18.response", [outs, ws] => do
+  | "C18.response", [outs, ws, ops] => do
       let outs ← (← jArr? outs).mapM outcomeOf?
       let ws ← jStrList? ws
-      some (ok (respJson (buildResponse outs ws)))
+      let ops ← (← jArr? ops).mapM toJ
+      some (ok (respJson (buildResponse outs ws ops)))
+  | "C18.serve", [entries, c, b, p, fns, ops] => do
+      -- `ops` = what the real `jsonpatch.from_diff` returned for this review (the diff library is a
+      -- parameter of the model): the model decides selection, order, status, warnings, patch presence.
+      let es ← (← jArr? entries).mapM entryOf?
+      let c ← causeOf? c
+      let b ← toJ b
+      let p ← kvsOf? p
+      let fns ← (← jArr? fns).mapM fnOf?
+      let ops ← (← jArr? ops).mapM toJ
+      let act : Handler → Act := fun h =>
+        match es.find? (fun e => e.1.1.id == h.id) with
+        | some e => e.2
+        | none => ⟨[], none⟩
+      match serve (fun _ _ => ops) (es.map (·.1)) c act b p fns with
+      | .ok r => some (ok (respJson r))
+      | .error e => some (err (errTag e))
+  | "C18.ruleops", [h] => do
+      let h ← handlerOf? h
+      some (ok (.arr ((managedRuleOps h).map Json.str).toArray))
   | "C18.gate", [h, c, m] => do
       let h ← handlerOf? h
       let c ← causeOf? c
